@@ -205,6 +205,11 @@ func (qb *QueryBuilder) Build() (string, []interface{}, error) {
 	if qb.orderBy != "" {
 		// Parse and sanitize orderBy (format: "column direction")
 		parts := strings.Fields(qb.orderBy)
+		if len(parts) > 2 {
+			// "id DESC ; DROP TABLE users": anything beyond column and
+			// direction is outside the grammar and is rejected, not dropped
+			return "", nil, fmt.Errorf("invalid order by clause: %s", qb.orderBy)
+		}
 		if len(parts) >= 1 {
 			sanitizedOrderCol, err := SanitizeIdentifier(parts[0])
 			if err != nil {
